@@ -72,7 +72,7 @@ func (e *Entry) String() string {
 	case "mark":
 		return fmt.Sprintf("t%d MARK %s", e.Thread, e.Note)
 	default:
-		return fmt.Sprintf("t%d %s %s %s", e.Thread, e.Kind, e.ID(), e.Note)
+		return fmt.Sprintf("t%d %s%s %s %s", e.Thread, c, e.Kind, e.ID(), e.Note)
 	}
 }
 
